@@ -229,7 +229,8 @@ func runC18(res *Result, tier string, seed int64, replay string) {
 		pair{"lt-in-title", "<mjml><mj-head><mj-title>a &lt; b</mj-title></mj-head><mj-body><mj-section><mj-column><mj-text>t</mj-text></mj-column></mj-section></mj-body></mjml>",
 			"<mjml><mj-head><mj-title><![CDATA[a < b]]></mj-title></mj-head><mj-body><mj-section><mj-column><mj-text>t</mj-text></mj-column></mj-section></mj-body></mjml>"},
 	)
-	base := wrap(`<mj-text>T</mj-text><mj-image src="x.png" alt="a &amp; b"/>`)
+	base := wrap(`<mj-text>T <b>b</b></mj-text><mj-image src="x.png" alt="a &amp; b"/><mj-raw><div class="tracking">raw</div></mj-raw><mj-table><tr><td>c</td></tr></mj-table>`)
+	base = strings.Replace(base, "<mj-body>", `<mj-head><mj-raw><meta name="x" content="y"/></mj-raw><mj-style>.a { color: red; }</mj-style></mj-head><mj-body>`, 1)
 	// comments whose body begins or ends with the characters of the comment delimiters themselves (all well-formed XML)
 	for _, body := range trickyCommentBodies {
 		pre := "<!--" + body + "-->"
